@@ -31,6 +31,7 @@ Sim *make_hashjump_sim();
 Sim *make_l2mgr_sim();
 Sim *make_stream_sim();
 Sim *make_streamhuge_sim();
+Sim *make_gcmhuge_sim();
 Sim *make_oneshot_sim();
 Sim *make_dispatch_sim();
 Sim *make_fipsgate_sim();
